@@ -212,15 +212,47 @@ func currentCfg() any {
 }
 
 func (g *gen) flags() string {
-	switch g.rng.Intn(40) {
+	switch g.rng.Intn(48) {
 	case 0, 1:
 		return "f"
 	case 2:
 		return "c"
 	case 3:
 		return "fc"
+	case 4:
+		return g.rng.Pick([]string{"n", "u", "x", "m", "i", "w", "fu", "fx"})
 	}
 	return "-"
+}
+
+// loadStep: POST /load (and now and then another method) with the whole range of Content-Types.
+func (g *gen) loadStep(s *session) {
+	m := "P"
+	if g.rng.Chance(1, 10) {
+		m = g.rng.Pick([]string{"G", "U", "D", "H", "A"})
+	}
+	var body string
+	fl := g.rng.Pick([]string{"-", "-", "-", "n", "n", "u", "f", "fn", "w", "w", "fw", "x", "c", "m", "i"})
+	switch {
+	case strings.Contains(fl, "w"):
+		body = bodyOf(g.value(3)) // the adapter wraps it into {"apps":{"c12":…}}
+	default:
+		body = bodyOf(g.doc())
+	}
+	if g.rng.Chance(1, 25) {
+		body = g.rng.Pick([]string{"!", "-"})
+	}
+	if m == "G" || m == "H" || m == "D" {
+		body, fl = "-", "-"
+	}
+	p := "/load"
+	if g.rng.Chance(1, 6) {
+		p = "/adapt"
+	}
+	if p == "/adapt" && m == "P" && body == "-" {
+		body = "!" // an empty body to /adapt is outside the domain (see parseStep)
+	}
+	s.exec(stepLine(m, p, body, g.ifMatch(s, "/config/"), fl))
 }
 
 func (g *gen) ifMatch(s *session, path string) string {
@@ -274,6 +306,10 @@ func (g *gen) history(maxSteps int) string {
 				}
 			}
 			s.exec(stepLine(m, p, b, g.ifMatch(s, p), g.flags()))
+		}
+		if g.rng.Chance(1, 14) {
+			g.loadStep(s)
+			continue
 		}
 		switch k := g.rng.Intn(100); {
 		case k < 18:
@@ -379,7 +415,7 @@ func boolMap(m map[string]bool) map[string]any {
 
 func (prop) Generate(rng *core.Rand, tier string, emit func(string)) {
 	setup()
-	n, ncas, maxSteps := 2500, 4, 16
+	n, ncas, maxSteps := 2000, 4, 16
 	switch tier {
 	case "thorough":
 		n, ncas, maxSteps = 30000, 25, 30
